@@ -230,7 +230,7 @@ def h_make_info(c, label, n):
         c.ensure("rfc8446.HkdfLabel", eq(out.value, const(n.to_bytes(2, "big") + bytes([len(full)]) + full + b"\x00")))
 
 
-@harness("C15", "keys.quic_initial", functions=[QK + ".dev_initial_keys"])
+@harness(["C15", "C02"], "keys.quic_initial", functions=[QK + ".dev_initial_keys"])
 def h_initial(c):
     """RFC 9001 5.2: initial_secret = HKDF-Extract(salt_v1, client_dst_connection_id); client/server initial secrets by
     "client in"/"server in" (32 bytes, SHA-256); key/iv/hp by "quic key" (16) / "quic iv" (12) / "quic hp" (16):
@@ -256,7 +256,7 @@ QLABELS = {"CLIENT_HANDSHAKE_TRAFFIC_SECRET": "client_handshake", "SERVER_HANDSH
            "CLIENT_EARLY_TRAFFIC_SECRET": "client_early"}
 
 
-@harness("C15", "keys.quic_traffic", functions=[QK + ".dev_quic_keys"], cases=[(16, "SHA256"), (32, "SHA384"), (32, "SHA256")])
+@harness(["C15", "C02"], "keys.quic_traffic", functions=[QK + ".dev_quic_keys"], cases=[(16, "SHA256"), (32, "SHA384"), (32, "SHA256")])
 def h_quic_keys(c, klen, alg):
     """RFC 9001 5.1: key / iv / hp = HKDF-Expand-Label(secret, "quic key" / "quic iv" / "quic hp", "", len) for the
     handshake, 0-RTT and 1-RTT secrets; the 1-RTT secrets themselves are kept for key updates"""
@@ -278,7 +278,7 @@ def h_quic_keys(c, klen, alg):
     c.ensure("secrets_kept.server", eq(out.value["server_application_sec"], secrets["server_application"]))
 
 
-@harness("C15", "keys.quic_key_update", functions=[QK + ".key_update", "tlexport.quic.quic_decryptor.QuicDecryptor.__init__"],
+@harness(["C15", "C02"], "keys.quic_key_update", functions=[QK + ".key_update", "tlexport.quic.quic_decryptor.QuicDecryptor.__init__"],
          cases=[(16, "SHA256", "AESGCM"), (32, "SHA384", "AESGCM"), (32, "SHA256", "ChaCha20Poly1305")])
 def h_key_update(c, klen, alg, aead):
     """RFC 9001 6.1: secret_<n+1> = HKDF-Expand-Label(secret_<n>, "quic ku", "", Hash.length); new key/iv from it; per
